@@ -64,12 +64,21 @@ def check(run, replay=None):
                        'for sessions that do not exist, commanded address via BAM and RTS with addresses 0..255, partial PGN 126208 traffic (never complete for us: group functions are outside '
                        'the shared model), raw random identifiers; plus nodegen.random_history and randomised D-14 scenarios.  Oracle: no sanitizer/fence fault, every delivered message <= 223 '
                        'bytes, <= 20 deliveries per ParseMessages.  Model (incl. its out-of-bounds flag) and C++ compared on every event and the state dump, both scheduler builds; '
-                       'non-trivial = history with received frames')
+                       'family gf-*: the complete PGN 126208 traffic of the C09 generator (requests, commands, read/write, UCS-2 strings ending around the 70-byte field buffer) against the model '
+                       'with the library handlers (gf_lib) under the same oracle; non-trivial = history with received frames')
     # the 64-bit harness handles all cases of one call in one process and never frees a node (tNMEA2000 has no destructor), so a call
     # gets a bounded number of cases: beyond ~10^4 histories the sanitizer's allocator gives up, which would look like a crash
     CHUNK = 2500
     chunks = [cases[k:k + CHUNK] for k in range(0, len(cases), CHUNK)]
-    for fs in ('w64', 'w32'):
+    for fs in (() if (replay and any(l.startswith('# family: gf-') for l in open(replay))) else ('w64', 'w32')):
         for k, chunk in enumerate(chunks):
             fam = 'safe-' + fs if len(chunks) == 1 else 'safe-%s-c%02d' % (fs, k)
             vlib.correspond(run, fam, 'h_node', fs, 'NODE', chunk, oracle, nontrivial, model_args=[fs])
+    # complete group-function traffic (PGN 126208 requests / commands / read / write incl. UCS-2 strings around the 70-byte field buffer):
+    # the cases of the C09 generator under this property's oracle, against the node model with the library handlers (gf_lib; C07_gf_lib_ok)
+    gf_replay = bool(replay) and any(l.startswith('# family: gf-') for l in open(replay))
+    if gf_replay or not replay:
+        import p_C09
+        gcases = cases if gf_replay else p_C09.gen(run.seed, run.tier)
+        for fs in ('w64', 'w32'):
+            vlib.correspond(run, 'gf-' + fs, 'h_node', fs, 'NODEGF', gcases, oracle, nontrivial, model_args=[fs])
